@@ -152,6 +152,9 @@ func workerMain(t *testing.T) {
 			emit(wline{Type: "violation", Idx: idx, Seed: seed, V: m.Expect, Replay: min})
 			break
 		}
+		if detOn {
+			fmt.Printf("DET %s %d %016x\n", prop, idx, detTake())
+		}
 		emit(wline{Type: "end", Idx: idx, Ms: time.Since(t0).Milliseconds()})
 	}
 	st.Export()
@@ -343,7 +346,7 @@ func replayMain(t *testing.T) {
 
 func runReplay(path string, relax string) (*replayResult, error) {
 	cmd := exec.Command(os.Args[0], "-test.run", "^TestVerif$", "-test.timeout", "30m")
-	cmd.Env = append(os.Environ(), "VERIF_MODE=replay", "VERIF_REPLAY="+path, "VERIF_RELAX="+relax)
+	cmd.Env = append(os.Environ(), "VERIF_MODE=replay", "VERIF_REPLAY="+path, "VERIF_RELAX="+relax, "GOMAXPROCS=2")
 	outb, err := cmd.CombinedOutput()
 	for _, l := range strings.Split(string(outb), "\n") {
 		if strings.HasPrefix(l, "REPLAY-RESULT ") {
@@ -575,6 +578,14 @@ func superMain(t *testing.T) int {
 				delete(started, l.Idx)
 				// confirm in a fresh process
 				res, err := runReplay(l.Replay, relaxCSV)
+				// with a concurrent codec the k-th byte-level drive call is not
+				// exactly repeatable (helper goroutines read ahead): retry
+				for try := 0; try < 4 && err == nil && !res.Match; try++ {
+					if c, e := readCase(l.Replay); e != nil || !asyncCodec(c.Cfg) {
+						break
+					}
+					res, err = runReplay(l.Replay, relaxCSV)
+				}
 				if err != nil {
 					fmt.Println("replay of", l.Replay, "did not run:", err)
 					broken = true
